@@ -32,6 +32,23 @@ Theorem C11_reply_records : forall shuf, is_shuffle shuf ->
 Proof. exact findnodes_reply_records. Qed.
 Print Assumptions C11_reply_records.
 
+(* the same in either phase of the table: also while the initial seeding is still running (Table.isInitDone() false) only
+   liveness-checked entries are offered *)
+Theorem C11_reply_records_any_table_phase : forall shuf, is_shuffle shuf ->
+  forall init_done tab self rip dists enrs,
+  handle_find_nodes_st init_done tab self rip shuf dists = Ok enrs ->
+  nlen enrs <= 32 /\
+  forall r, In r enrs ->
+    relay_ok rip (rflags r) = true /\
+    ((r = self /\ In 0 dists) \/
+     (exists d b, In d dists /\ 1 <= d <= 256 /\ nth_error tab (bucket_index d) = Some b /\ In (r, true) b)).
+Proof. exact findnodes_reply_records_any_phase. Qed.
+Print Assumptions C11_reply_records_any_table_phase.
+Theorem C11_table_phase_irrelevant : forall init_done tab self rip shuf dists,
+  handle_find_nodes_st init_done tab self rip shuf dists = handle_find_nodes tab self rip shuf dists.
+Proof. exact findnodes_any_phase. Qed.
+Print Assumptions C11_table_phase_irrelevant.
+
 (* invalid (> 256) and repeated distances contribute nothing: the reply is that of the de-duplicated valid distances *)
 Theorem C11_invalid_and_repeated_distances_ignored : forall shuf tab self rip dists,
   handle_find_nodes tab self rip shuf dists = handle_find_nodes tab self rip shuf (clean_dists dists []) /\
